@@ -72,6 +72,7 @@ ASSUMPTIONS = [
     "with it (engine `_crashed` flag) and it is judged by the same oracle on its own keys; the primary store must be unaffected",
     "auxiliary check beyond the letter of the statement (asked for by the integrator after commit b3cd99f): when a follow-up workload on "
     "the recovered tree runs to completion and its flushes leave should_compact() true, at least one compaction must have run",
+    "15 % of the puts store a falsy value (0, 0.0, False, '', (), [], {}), each at most once per key; values are compared by type and repr",
     "put_sync goes through WriteAheadLog.append_sync, which never syncs: such a write is durable only once a later fsync covers it",
 ]
 EXPECTED_PROBES = [
@@ -89,6 +90,7 @@ EXPECTED_PROBES = [
     "probe.follow_up_workload_wanted_compaction", "probe.compaction_ran_after_crash_inside_compaction_window",
     "probe.crash_after_concurrent_flushes_with_different_write_times", "probe.second_crash_while_replayed_memtable_is_being_flushed",
     "workloads_policy_every", "workloads_policy_batch", "workloads_policy_periodic", "workloads_with_bystander_store",
+    "probe.falsy_value_read_back_after_recovery",
 ]
 SHRINK_SKIP = ("keys", "kind", "strategy", "klass", "policy")  # side stores shrink like everything else
 
@@ -134,8 +136,8 @@ class Writer(Entity):
             kind = op.get("op")
             seq = wal._next_sequence  # the sequence number the WAL is about to assign
             if kind in ("put", "put_sync"):
-                val = f"{tag}{self.idx}.{i}"
-                h = hist.invoke(self.idx, "put", key, val, seq=seq, sync_api=kind == "put_sync")
+                val = S.make_value(op, f"{tag}{self.idx}.{i}")
+                h = hist.invoke(self.idx, "put", key, S.canon(val), seq=seq, sync_api=kind == "put_sync")
                 W.writes[key].append(h)
                 W.by_seq[seq] = h
                 if kind == "put":
@@ -181,7 +183,7 @@ class DurabilityWatch:
             if not ok:
                 continue
             if o["kind"] == "put":
-                if v == o["value"]:
+                if S.norm(v) == o["value"]:
                     return True
             elif v is S.TOMB and first >= o["inv"]:
                 return True
@@ -471,6 +473,7 @@ def _gen_wide(rng, tier):
             after.append({"start_ns": t, "ops": [{"op": "put" if rng.random() < 0.9 else "delete", "k": order[pos % n_keys], "gap_ns": 0}]})
             pos += 1
         t += rng.choice([50_000, 100_000, 100_000, 200_000])
+    S.assign_falsy(rng, [o for w_ in writers + after for o in w_["ops"] if o["op"] == "put"], 0.15)
     sc = {"kind": "crash", "klass": "wide", "seed": rng.getrandbits(32), "keys": keys, "engine": eng, "writers": writers,
           "after": {"writers": after}, "crash": {"ks": [], "second": []}}
     r2 = random.Random(sc["seed"])
@@ -505,6 +508,7 @@ def gen(rng, tier):
           "after": {"writers": [{"start_ns": rng.choice(START_NS), "ops": _gen_ops(rng, n_keys, rng.randint(2, 7), False)}
                                 for _ in range(rng.randint(1, 3))]},
           "crash": {"ks": [], "second": []}}
+    S.assign_falsy(rng, [o for w_ in writers + sc["after"]["writers"] for o in w_["ops"] if o["op"] in ("put", "put_sync")], 0.15)
     r2 = random.Random(sc["seed"])
     max_all = MAX_ALL if tier == "quick" else 400
     if rng.random() < 0.3:
@@ -553,7 +557,7 @@ def _second_phase_length(sc, k):
     try:
         W.lsm.crash()
         W.lsm.recover_from_crash()
-        rec = {key: W.lsm.get_sync(key) for key in W.keys}
+        rec = {key: S.canon(W.lsm.get_sync(key)) for key in W.keys}
     except Exception:  # noqa: BLE001  (judged properly in run())
         return None
     W2 = World(sc, base=W, recovered=rec)
@@ -570,7 +574,7 @@ def _sst_has(lsm, key, want) -> bool:
     for level in lsm._levels:
         for sst in level:
             ok, v = S.sst_lookup(sst, key)
-            if ok and (v is S.TOMB if want is None else v == want):
+            if ok and (v is S.TOMB if want is None else S.norm(v) == want):
                 return True
     return False
 
@@ -599,7 +603,7 @@ def crash_recover_judge(W: World, label: str, C: dict, states: set, sc: dict, ph
                 continue  # a record from before the first crash (judged there)
             return ("C15/wal-entry-matches-write/WriteAheadLog/unknown-entry",
                     f"{label}: WAL entry seq={s} ({e.key!r}) belongs to no write the harness issued")
-        if o["key"] != e.key or (e.value is not S.TOMB and e.value != o["value"]) or ((e.value is S.TOMB) != (o["kind"] == "delete")):
+        if o["key"] != e.key or (e.value is not S.TOMB and S.canon(e.value) != o["value"]) or ((e.value is S.TOMB) != (o["kind"] == "delete")):
             return ("C15/wal-entry-matches-write/WriteAheadLog/mismatch",
                     f"{label}: WAL entry seq={s} holds ({e.key!r}, {S.norm(e.value)!r}) but the write issued with that "
                     f"sequence number was {(o['kind'], o['key'], o['value'])}")
@@ -608,12 +612,12 @@ def crash_recover_judge(W: World, label: str, C: dict, states: set, sc: dict, ph
         info = lsm.crash()
         post_wal = {e.sequence_number for e in wal._entries}
         rec = lsm.recover_from_crash()
-        state1 = {key: lsm.get_sync(key) for key in W.keys}
+        state1 = {key: S.canon(lsm.get_sync(key)) for key in W.keys}
         lsm.recover_from_crash()
-        state2 = {key: lsm.get_sync(key) for key in W.keys}
+        state2 = {key: S.canon(lsm.get_sync(key)) for key in W.keys}
         lsm.crash()
         lsm.recover_from_crash()
-        state3 = {key: lsm.get_sync(key) for key in W.keys}
+        state3 = {key: S.canon(lsm.get_sync(key)) for key in W.keys}
     except Exception as exc:  # noqa: BLE001
         sig = repo_exception_sig(exc)
         if sig is None:
@@ -665,6 +669,8 @@ def crash_recover_judge(W: World, label: str, C: dict, states: set, sc: dict, ph
         if any(o["seq"] <= synced and o["ret"] is None for o in ws):
             C["probe.crash_after_wal_sync_before_memtable_put"] += 1
         if got in allowed:
+            if isinstance(got, tuple):
+                C["probe.falsy_value_read_back_after_recovery"] += 1
             if durable and got is None:
                 C["probe.durable_delete_read_back_absent"] += 1
             if got is not None and all(o["seq"] > synced for o in ws if o["value"] == got):
@@ -770,6 +776,7 @@ COUNTERS = [
     "probe.sync_api_write_in_workload", "workloads_sync_api_ops",
     "probe.follow_up_workload_wanted_compaction", "probe.compaction_ran_after_crash_inside_compaction_window",
     "probe.crash_after_concurrent_flushes_with_different_write_times", "probe.second_crash_while_replayed_memtable_is_being_flushed",
+    "probe.falsy_value_read_back_after_recovery",
 ]
 
 
@@ -786,6 +793,8 @@ def run(sc):
     if not isinstance(second, list) or any(not isinstance(p, list) or len(p) != 2 or
                                            any(isinstance(x, bool) or not isinstance(x, int) or x < 1 for x in p) for p in second):
         raise InvalidScenario("second crash points")
+    S.check_fv_unique((o.get("k"), o.get("fv")) for grp in (sc.get("writers") or [], (sc.get("after") or {}).get("writers") or [])
+                      for w_ in grp if isinstance(w_, dict) for o in w_.get("ops") or [] if isinstance(o, dict))
     base, st = baseline(sc)
     C = {name: 0 for name in COUNTERS}
     L = base.mon.seq
